@@ -144,11 +144,17 @@ def run(res, tier, seed, driver_ok):
     ntr = 20000 if thorough else 700
     for n in range(ntr):
         (w1, p1, k1), (w2, p2, k2), (w3, p3, k3) = rand_pose(rnd), rand_pose(rnd), rand_pose(rnd)
+        if n % 12 == 0:
+            # poses inside the quantifier (quarter turns) whose COMPOSITION is an exact half turn about a coordinate axis: ref*rel for equal
+            # quarter turns, inv(ref)*x for opposite ones — the three pivots of the logarithm's angle-pi case
+            ax = np.zeros(3); ax[(n // 12) % 3] = rnd.choice([1.0, -1.0])
+            w1 = ax * (math.pi / 2); w2 = ax * (math.pi / 2) * (1 if (n // 36) % 2 == 0 else -1)
         A, B, Cc = tm(list(p1) + list(w1)), tm(list(p2) + list(w2)), tm(list(p3) + list(w3))
         TA, TB, TC = A.gTM(), B.gTM(), Cc.gTM()
         scale = max(1.0, float(np.max(np.abs(np.concatenate([p1, p2, p3])))))
         rel_band = lambda M: math.acos(max(-1, min(1, (np.trace(M[:3, :3]) - 1) / 2))) < 2e-6
-        near_pi = lambda M: math.acos(max(-1, min(1, (np.trace(M[:3, :3]) - 1) / 2))) > math.pi - 1e-3
+        # next to a half turn the logarithm loses precision (known finding of C01) — unless the code takes its exact half-turn branch (trace <= -1)
+        near_pi = lambda M: math.acos(max(-1, min(1, (np.trace(M[:3, :3]) - 1) / 2))) > math.pi - 1e-3 and not (M[0, 0] + M[1, 1] + M[2, 2] - 1) / 2.0 <= -1
         tol = 5e-6 + 1e-9 * scale * scale
         res.evaluations += 1
         res.distinct.add(('triple', tuple(w1), tuple(w2), tuple(w3)))
